@@ -252,10 +252,22 @@ def gen_cfg(rng, cls, big):
         else:
             cfg["spread_form"], cfg["spread"] = "array_col", [float(v) for v in np.round(rng.uniform(0.2, 6.0, size=n), 4)]
     u = rng.random()
-    if u < 0.4:
+    if u < 0.07 and n >= 2:     # weights that are not all one but average to exactly one
+        half = [0.5, 1.5] * (n // 2) + ([1.0] if n % 2 else [])
+        cfg["weights"] = [float(v) for v in half]
+    elif u < 0.4:
         cfg["weights"] = [float(v) for v in np.round(rng.uniform(0.3, 3.0, size=n), 3)]
     elif u < 0.52:      # the same weight for every observation (a constant, not 1)
         cfg["weights"] = [float([0.5, 2.0, 3.0, 0.25][int(rng.integers(0, 4))])] * n
+    r2 = rng.random()
+    if r2 < 0.06 and cls in COUNT:      # counts in the millions fitted to a fraction of a percent (a curve against its own rounded values)
+        big = [float(int(v)) for v in rng.integers(200000, 3000000, size=n)]
+        cfg["y"] = big
+        cfg["yhat"] = [float(v * (1.0 + float(rng.choice([-1, 1])) * float(rng.uniform(2e-4, 3e-3)))) for v in big]
+    elif r2 < 0.12 and cls == "Gamma" and cfg.get("spread_form") in ("float", "int", "default_value", "none"):
+        # precise data (shape in the hundreds) and a prediction off by a factor of three: the density underflows, its log does not
+        cfg["spread_form"], cfg["spread"] = "float", float(rng.choice([300.0, 1000.0]))
+        cfg["yhat"] = [float(v * float(rng.choice([3.0, 1.0 / 3.0]))) for v in cfg["y"]]
     if rng.random() < 0.06:     # predictions many orders of magnitude below the data (early iterations of a fit, tiny concentrations)
         cfg["yhat"] = [float(v) * float(10.0 ** -int(rng.integers(9, 15))) for v in cfg["yhat"]]
     return cfg
